@@ -7,6 +7,7 @@ Exit 2: ``ANALYSIS-ERROR``: the analysis could not be carried out (lost
         anchor, unknown idiom, fewer rule instances than confirmed by hand).
 """
 import argparse
+import fnmatch
 import importlib
 import os
 import sys
@@ -68,7 +69,9 @@ def run_property(prop, tier, repo, evidence_path=None, quiet=False, write=True):
     known = [k for k in report.load_known() if k.get("property") == prop and k.get("status") == "known"]
     new = []
     for f in findings:
-        k = next((k for k in known if k.get("key") == f.key), None)
+        # a known finding is identified by rule + construct; its function part may name a class prefix ("...Harvester.*") so that
+        # moving the same construct into a private helper of that class does not turn a known defect into a new alarm
+        k = next((k for k in known if k.get("key") == f.key or ("*" in k.get("key", "") and fnmatch.fnmatchcase(f.key, k.get("key")))), None)
         if k is not None:
             say("KNOWN-FINDING: property=%s %s [%s %s:%s]" % (prop, k.get("what", f.message), f.rule, f.file, f.line))
         else:
